@@ -406,4 +406,44 @@ func init() {
 			r.Floor("cache accesses", n, 2)
 		})
 	_ = strings.Contains
+	register("C16.R6", "files are visited in a fixed order: the loop of generateInjectors that looks for injectors (and thereby decides the order of sections and the first-come allocation of import aliases and value names) ranges over the package's files sorted by name — the loader's order is the command line's when the package is named as a list of files",
+		func(c *Ctx, r *R) {
+			fi := r.Need(c.Fn(c.W, "generateInjectors"), "generateInjectors")
+			if fi == nil {
+				return
+			}
+			n := 0
+			fi.inspect(fi.Decl.Body, func(nd ast.Node) bool {
+				rs, ok := nd.(*ast.RangeStmt)
+				if !ok || types.TypeString(fi.Info.TypeOf(rs.X), nil) != "[]*go/ast.File" {
+					return true
+				}
+				n++
+				v := fi.varOf(rs.X)
+				sorted := false
+				if v != nil {
+					for _, cl := range fi.callsTo("sort.Slice", "sort.SliceStable") {
+						if fi.varOf(cl.Args[0]) != v || cl.Pos() > rs.Pos() || !fi.unconditionalIn(cl, fi.Decl.Body) {
+							continue
+						}
+						// the comparison is on file names
+						if lit, ok := ast.Unparen(cl.Args[1]).(*ast.FuncLit); ok {
+							names := 0
+							ast.Inspect(lit, func(m ast.Node) bool {
+								if c2, ok := m.(*ast.CallExpr); ok && fi.calleeName(c2) == "go/token.File.Name" {
+									names++
+								}
+								return true
+							})
+							if names >= 2 {
+								sorted = true
+							}
+						}
+					}
+				}
+				r.Check(sorted, "generateInjectors/files-sorted-by-name", rs.Pos(), "the files are sorted by name before they are visited")
+				return true
+			})
+			r.Floor("file loops in generateInjectors", n, 1)
+		})
 }
